@@ -227,8 +227,12 @@ def materialize_tags(
 
   def transform(value, state: daglish.State):
     value = state.map_children(value)
-    if isinstance(value, TaggedValueCls) and value.value != NO_VALUE and (
-        tags is None or set(value.tags) & tags):
+    if (
+        isinstance(value, TaggedValueCls)
+        and 'value' in value.__arguments__
+        and value.value != NO_VALUE
+        and (tags is None or set(value.tags) & tags)
+    ):
       return value.value
     elif isinstance(value, config.Buildable):
       if tags:
